@@ -2,7 +2,7 @@
      C                       clear universe
      D n str*                default aliases
      U <str> <body>          define template
-     K <body>                print "CMP <node>"  (compile_body)
+     K <body>                print "CMP <node>"  (compile_body_r: the expected parse, '=' of argument texts cut out as eqmark)
      P fuel limit <body>     print "RES <node> | EVAL.. | IMPL.."
    str  = k c1..ck ; body = n ast*n
    ast  = t str | p str 0 | p str 1 body | c str n arg*  (arg = 0 body | 1 str body)
@@ -68,15 +68,15 @@ let () =
       | "C" -> universe := []
       | "D" -> let n = next_int () in defaults := read_list read_str n
       | "U" -> let nm = read_str () in let b = read_body () in universe := !universe @ [(nm, b)]
-      | "K" -> let b = read_body () in print_string ("CMP " ^ out_node (compile_body b) ^ "\n")
+      | "K" -> let b = read_body () in print_string ("CMP " ^ out_node (compile_body_r b) ^ "\n")
       | "P" ->
         let fuel = next_int () in
         let limit = next_int () in
         let b = read_body () in
         let ev = match evals (nat_of_int fuel) !universe [] b with Some s -> "EVAL OK " ^ out_str s | None -> "EVAL NONE" in
-        let im = match impl_expand !universe !defaults (nat_of_int limit) b with
+        let im = match impl_expand_r !universe !defaults (nat_of_int limit) b with
           | Ok s -> "IMPL OK " ^ out_str s | Err XRec -> "IMPL ERR XRec" | Err XMem -> "IMPL ERR XMem" in
-        print_string ("RES " ^ out_node (compile_body b) ^ " | " ^ ev ^ " | " ^ im ^ "\n")
+        print_string ("RES " ^ out_node (compile_body_r b) ^ " | " ^ ev ^ " | " ^ im ^ "\n")
       | t -> print_string ("BAD " ^ t ^ "\n")
     with e -> print_string ("EXN " ^ Printexc.to_string e ^ "\n"))
   done with End_of_file -> ()
